@@ -2,6 +2,7 @@
 //! `--oracle` switches from "answer like the model would" to "evaluate the property's own predicate
 //! on the real code, independently of the model".
 mod l1;
+mod l2;
 mod util;
 
 use std::io::{BufRead, Write};
@@ -35,6 +36,22 @@ fn handle(line: &str, oracle: bool) -> String {
             (Some(d), Some(b)) => l1::oracle_flip(&d, &b),
             _ => bad(),
         },
+        (["PUT", k, w, off, len, v, h], o) => {
+            match (w.parse::<usize>(), off.parse::<usize>(), len.parse::<usize>(), v.parse::<u64>(), unhex(h)) {
+                (Ok(w), Ok(off), Ok(len), Ok(v), Some(d)) => {
+                    if o { l2::oracle_put(k, w, off, len, v, &d) } else { l2::op_put(k, w, off, len, v, &d) }
+                }
+                _ => bad(),
+            }
+        }
+        (["PARSE", k, w, off, len, h], o) => {
+            match (w.parse::<usize>(), off.parse::<usize>(), len.parse::<usize>(), unhex(h)) {
+                (Ok(w), Ok(off), Ok(len), Some(d)) => {
+                    if o { l2::oracle_parse(k, w, off, len, &d) } else { l2::op_parse(k, w, off, len, &d) }
+                }
+                _ => bad(),
+            }
+        }
         _ => bad(),
     }
 }
